@@ -36,8 +36,13 @@ def mixed_formats():
     return out
 
 
+def sign_formats():
+    """required_mantissa_sign for the integer writers (C03: '+' only if the format requires a sign)"""
+    return [("I", pack(r, flags=STD_FLAGS | F["required_mantissa_sign"]), "reqsign%d" % r) for r in (10, 2, 7, 16, 36)]
+
+
 def all_formats():
-    out = radix_formats() + mixed_formats()
+    out = radix_formats() + mixed_formats() + sign_formats()
     try:
         import fmtcat
         out += fmtcat.extra_formats()
